@@ -1,0 +1,41 @@
+//go:build verif
+
+// Contracts for package hranoprovod, read by the verification-condition generator in /verif/govc.
+// This file contains comments only; it is compiled only with -tags verif and adds no code.
+
+package hranoprovod
+
+/*@
+// ---------------------------------------------------------------------------------------------
+// spec functions over element lists (a list is its contents array plus a length k)
+// ---------------------------------------------------------------------------------------------
+
+// SpecAmt: sum of el[i].Value for i<k with el[i].Name == x
+fun SpecAmt(el seq[Element], k int, x string) float64 :=
+  if k <= 0 then 0.0 else (if el[k-1].Name == x then SpecAmt(el, k-1, x) + el[k-1].Value else SpecAmt(el, k-1, x))
+
+// SpecHas: some i<k has el[i].Name == x
+fun SpecHas(el seq[Element], k int, x string) bool :=
+  if k <= 0 then false else (el[k-1].Name == x || SpecHas(el, k-1, x))
+
+pred Distinct(el seq[Element], k int) := forall i, j int :: 0 <= i && i < j && j < k ==> el[i].Name != el[j].Name
+pred SortedStrict(el seq[Element], k int) := forall i, j int :: 0 <= i && i < j && j < k ==> el[i].Name < el[j].Name
+
+func (*Elements).Index returns (n, ok)
+  props C01 C02
+  requires el != nil
+  ensures @found  ok ==> 0 <= n && n < len(*el) && (*el)[n].Name == name && (forall j int :: 0 <= j && j < n ==> (*el)[j].Name != name)
+  ensures @absent !ok ==> n == 0 && (forall j int :: 0 <= j && j < len(*el) ==> (*el)[j].Name != name)
+  loop 1 {
+    invariant @prefix forall j int :: 0 <= j && j < #i ==> (*el)[j].Name != name
+  }
+
+func (*Elements).Add
+  props C01 C02
+  requires el != nil
+  modifies *el, elems(*el)
+  ensures @len    len(*el) == old(len(*el)) + 1
+  ensures @last   (*el)[old(len(*el))].Name == name && (*el)[old(len(*el))].Value == val
+  ensures @prefix forall i int :: 0 <= i && i < old(len(*el)) ==> (*el)[i] == old((*el)[i])
+  ensures @arr    arr(*el) == old(arr(*el)) || fresh(arr(*el))
+@*/
